@@ -3,8 +3,8 @@
 p=$1; wt=$2; pkg=$3; n=$4; m=$5; re=$6; shift 6
 d=/verif/seeded/$p-$m
 mkdir -p $d
-cp $wt/out/patch$n.diff $d/patch.diff
-cp $wt/out/demo${n}_test.go $d/demo_test.go
+cp $wt/_out/patch$n.diff $d/patch.diff 2>/dev/null || cp $wt/out/patch$n.diff $d/patch.diff
+cp $wt/_out/demo${n}_test.go $d/demo_test.go 2>/dev/null || cp $wt/out/demo${n}_test.go $d/demo_test.go
 echo "== confirm $p-$m (from $wt patch$n)"
 /verif/tools/confirmseed.sh $wt $pkg $d/patch.diff $d/demo_test.go "$re" "$@" 2>&1 | tail -3
 echo "== check $p-$m"
